@@ -36,7 +36,7 @@ def ops_for(cls):
 class Decl(object):
     """One replayed declaration history with symbolic slots to be filled with concrete vectors."""
 
-    def __init__(self, cls, par, hist, pre_par=None):
+    def __init__(self, cls, par, hist, pre_par=None, same_names=False):
         """pre_par: the object is first declared with these parameters and its constraints generated once (as a first
         solve would); its parameters are then changed to `par` and the constraints generated again."""
         from PEPit import PEP, Point
@@ -90,6 +90,10 @@ class Decl(object):
                 if getattr(f, "v", None) is not None:
                     self.ok = False; return
                 f.v = Point(); self.slots.append((f.v, "vdisp"))
+        if same_names:
+            # the user gave the first two evaluation points the same name (names are labels: they must not influence the model)
+            for x_ in pts[:2]:
+                x_.set_name("x")
         f.set_class_constraints()
         if pre_par is not None:
             for k_, v_ in par.items():
@@ -102,10 +106,10 @@ class Decl(object):
                 self.slots.append((x, "stat")); known.add(id(x))
 
 
-def judge(cls, par, member, hist, stats, pre_par=None):
+def judge(cls, par, member, hist, stats, pre_par=None, same_names=False):
     from PEPit.point import Point
     from PEPit.expression import Expression
-    d = Decl(cls, par, hist, pre_par)
+    d = Decl(cls, par, hist, pre_par, same_names)
     if not d.ok:
         return None
     f = d.f
@@ -364,9 +368,14 @@ def run_shard(shard, tier):
                 others = [q for q in MEM.all_claims(cls) if not MEM._same_par(q, par) and set(q) == set(par)
                           and not any(isinstance(v_, list) for v_ in q.values())]
                 variants = [None] + (others[:1] if depth <= 2 and cls != "BlockSmoothConvexFunction" else [])
+                if depth == 2 and all(h in "ecm" for h in hist):
+                    variants.append("same-names")
                 for pre in variants:
+                    names = pre == "same-names"
+                    if names:
+                        pre = None
                     try:
-                        probs = judge(cls, par, member, hist, stats, pre)
+                        probs = judge(cls, par, member, hist, stats, pre, names)
                     except Exception as e:
                         probs = [("generation-raised:%s:%s" % (cls, type(e).__name__), "%s on %s %s %s" % (str(e)[:120], mname, par, "".join(hist)))]
                     if probs is None:
@@ -375,7 +384,9 @@ def run_shard(shard, tier):
                     for k, msg in probs[:1]:
                         if pre is not None:
                             k, msg = k + ":after-parameter-change", msg + " [object first declared with %s]" % pre
-                        viol.append(dict(key=k, msg=msg, case=dict(cls=cls, par=par, member=mname, history="".join(hist), pre_par=pre)))
+                        if names:
+                            k, msg = k + ":same-names", msg + " [first two evaluation points both named 'x']"
+                        viol.append(dict(key=k, msg=msg, case=dict(cls=cls, par=par, member=mname, history="".join(hist), pre_par=pre, same_names=names)))
         if not samples:
             samples.append(dict(cls=cls, par=par, member=mname, history="es"))
     nontriv = stats.get("assignments", 0)
@@ -387,8 +398,10 @@ def run_shard(shard, tier):
 def replay(case):
     member = _member(case["member"])
     pre = case.get("pre_par")
-    probs = judge(case["cls"], case["par"], member, tuple(case["history"]), {}, pre)
-    return [dict(key=k + (":after-parameter-change" if pre is not None else ""), msg=m, case=case) for k, m in (probs or [])[:1]]
+    names = bool(case.get("same_names"))
+    probs = judge(case["cls"], case["par"], member, tuple(case["history"]), {}, pre, names)
+    return [dict(key=k + (":after-parameter-change" if pre is not None else "") + (":same-names" if names else ""), msg=m, case=case)
+            for k, m in (probs or [])[:1]]
 
 
 def meta(tier):
@@ -398,7 +411,7 @@ def meta(tier):
              "length <= %d over {e, r, c, m (mirrored pair, at most once), s, S, x (+ t, T for LinearOperator, v for Nonexpansive)} through the public API x all "
              "assignments of grid points (5 in R, 9 in R^2; stationary / fixed points from the member's own lists) x all listed "
              "subgradient selections (and, for histories <= 2, the same after the object was first declared with other parameters, its "
-             "constraints generated, and its parameters then changed); every generated scalar constraint and class LMI is evaluated on the concrete samples, "
+             "constraints generated, and its parameters then changed; and, for two-step evaluation histories, with the first two evaluation points given the same user name); every generated scalar constraint and class LMI is evaluated on the concrete samples, "
              "every (sub)gradient / value an oracle call RETURNED must be an answer of the member at that point, and every tuple of independent "
              "answers to the calls must be representable. "
              "evaluations = (claim, history) pairs; distinct_nontrivial = concrete assignments evaluated." % (len(claim_list()), _depth(tier)),
